@@ -890,7 +890,7 @@ From Coq Require Import Sorting.Permutation.
 Lemma insert_map_perm m l : Permutation (insert_map m l) (m :: l).
 Proof.
   induction l as [|x t IH]; cbn [insert_map]; [reflexivity|].
-  destruct (end_pfn m <=? end_pfn x); [reflexivity|]. rewrite IH. apply perm_swap.
+  destruct (map_le m x); [reflexivity|]. rewrite IH. apply perm_swap.
 Qed.
 
 Lemma sort_maps_perm l : Permutation (sort_maps l) l.
@@ -899,30 +899,37 @@ Proof.
   fold (sort_maps t). rewrite insert_map_perm. now constructor.
 Qed.
 
+Definition map_leP (a b : fmap) : Prop :=
+  end_pfn a < end_pfn b \/ (end_pfn a = end_pfn b /\ start_pfn a <= start_pfn b).
+
+Lemma map_le_spec a b : map_le a b = true <-> map_leP a b.
+Proof. unfold map_le, map_leP. lia. Qed.
+
 Lemma insert_map_sorted m l :
-  StronglySorted (fun a b => end_pfn a <= end_pfn b) l ->
-  StronglySorted (fun a b => end_pfn a <= end_pfn b) (insert_map m l).
+  StronglySorted map_leP l -> StronglySorted map_leP (insert_map m l).
 Proof.
   induction l as [|x t IH]; intros Hs; cbn [insert_map].
   - constructor; constructor.
   - inversion Hs as [|? ? Hs' Hall]; subst.
-    destruct (N.leb_spec (end_pfn m) (end_pfn x)) as [Hle|Hgt].
-    + constructor; [exact Hs|]. constructor; [exact Hle|].
-      eapply Forall_impl; [|exact Hall]. cbn beta. intros a Ha. lia.
-    + constructor; [apply IH; exact Hs'|].
+    destruct (map_le m x) eqn:E.
+    + apply map_le_spec in E. constructor; [exact Hs|]. constructor; [exact E|].
+      eapply Forall_impl; [|exact Hall]. cbn beta. unfold map_leP in *. intros a Ha. lia.
+    + assert (Hx : map_leP x m).
+      { assert (~ map_leP m x) by (intro H; apply map_le_spec in H; congruence). unfold map_leP in *. lia. }
+      constructor; [apply IH; exact Hs'|].
       eapply Permutation_Forall; [symmetry; apply insert_map_perm|].
-      constructor; [lia|exact Hall].
+      constructor; [exact Hx|exact Hall].
 Qed.
 
-Theorem sort_maps_sorted l : StronglySorted (fun a b => end_pfn a <= end_pfn b) (sort_maps l).
+Theorem sort_maps_sorted l : StronglySorted map_leP (sort_maps l).
 Proof.
   induction l as [|x t IH]; cbn [sort_maps fold_right]; [constructor|].
   apply insert_map_sorted. exact IH.
 Qed.
 
 Lemma sorted_disjoint_windows l :
-  StronglySorted (fun a b => end_pfn a <= end_pfn b) l ->
-  Forall (fun m => start_pfn m < end_pfn m) l ->
+  StronglySorted map_leP l ->
+  Forall (fun m => start_pfn m <= end_pfn m) l ->
   ForallOrdPairs (fun a b => end_pfn a <= start_pfn b \/ end_pfn b <= start_pfn a) l ->
   StronglySorted (fun a b => end_pfn a <= start_pfn b) l.
 Proof.
@@ -930,7 +937,7 @@ Proof.
   inversion Hne as [|? ? Ha Hne']; subst. inversion Hdis as [|? ? Hda Hdis']; subst.
   constructor; [now apply IH|].
   rewrite Forall_forall in *. intros b Hb. specialize (Hall b Hb). specialize (Hda b Hb).
-  specialize (Hne' b Hb). cbn beta in *. lia.
+  specialize (Hne' b Hb). unfold map_leP in Hall. cbn beta in *. lia.
 Qed.
 
 (** the descriptor lookup of diskdump_read_page fails ("Excluded page")
